@@ -303,7 +303,7 @@ class Assembler:
             ev.append((a, 1, b, new, None))
         for (pos, lines) in splices:
             ev.append((pos, 0, pos, None, lines))
-        ev.sort(key=lambda x: (x[0], x[1]))
+        ev.sort(key=lambda x: (x[0], x[1], x[2]))
         # overlap check
         last = s
         pos = s
@@ -506,7 +506,7 @@ class Assembler:
                 m = re.fullmatch(r'(\d+)\s+`(.*)`', sarg.strip())
                 if not m:
                     raise LostAnchor('%s:%d: bad %s syntax' % (rel, no, cmd))
-                n, text = int(m.group(1)), m.group(2).replace('\\n', '\n')
+                n, text = int(m.group(1)), m.group(2).replace('<NL>', '\n')
                 pos = self._nth(sf, ct[body_open].start, e, text, n, '%s:%d' % (rel, no))
                 if cmd == 'after':
                     pos += len(text)
